@@ -22,6 +22,9 @@ pub struct MerchantCtx {
     pub spec: String,
     pub cfg: merchant::Config,
     pub ccfg: customer::Config,
+    /// the same configuration as the customer holds it after receiving it over the wire / reading
+    /// it back from its own storage: decoded from its encoding
+    pub ccfg_wire: customer::Config,
     pub kp_bytes: Vec<u8>,
     pub rev_bytes: Vec<u8>,
     pub range_bytes: Vec<u8>,
@@ -102,6 +105,7 @@ fn build(spec: &str) -> MerchantCtx {
     let rt = atoms::trace(cfg.revocation_commitment_parameters());
     let gt = atoms::trace(cfg.range_constraint_parameters());
     let ccfg_trace = atoms::trace(&ccfg);
+    let ccfg_wire: customer::Config = bincode::deserialize(&ccfg_trace.bytes).unwrap_or_else(|_| de("customer::Config"));
     MerchantCtx {
         spec: spec.to_string(),
         pk: Pk::from_trace(&kt, "pk"),
@@ -111,6 +115,7 @@ fn build(spec: &str) -> MerchantCtx {
         range: range_raw(&gt),
         cfg,
         ccfg,
+        ccfg_wire,
         kp_bytes,
         rev_bytes,
         range_bytes,
